@@ -91,9 +91,15 @@ func HasEOF(r io.ReaderAt) (bool, error) {
 		return false, ErrNoEnd
 	}
 
+	if size < int64(len(magicBlock)) {
+		// Too short to hold the marker.
+		return false, nil
+	}
 	b := make([]byte, len(magicBlock))
-	_, err := r.ReadAt(b, size-int64(len(magicBlock)))
-	if err != nil {
+	n, err := r.ReadAt(b, size-int64(len(magicBlock)))
+	if err != nil && !(err == io.EOF && n == len(b)) {
+		// A ReaderAt may return io.EOF with
+		// the last bytes of its input.
 		return false, err
 	}
 	for i, c := range b {
